@@ -90,6 +90,19 @@ def fatom(fname, arg: Poly) -> Poly:
     return Poly.atom(name)
 
 
+def anchor_poly(p: Poly) -> Poly:
+    """mark the shift symbols of p as anchored to fixed list positions (not translation invariant)."""
+    def f(a):
+        ps = parse_sym(a)
+        if ps:
+            return Poly.atom("A!" + a)
+        if a in FUNCS:
+            fn, arg = FUNCS[a]
+            return fatom(fn, anchor_poly(arg))
+        return Poly.atom(a)
+    return _map_atoms(p, f)
+
+
 def shift_poly(p: Poly, k: int) -> Poly:
     def f(a):
         ps = parse_sym(a)
@@ -104,6 +117,10 @@ def shift_poly(p: Poly, k: int) -> Poly:
 
 def reverse_poly(p: Poly) -> Poly:
     def f(a):
+        if a.startswith("A!"):
+            ps = parse_sym(a[2:])
+            if ps:
+                return Poly.atom("A!" + sym(ps[0], -ps[1]))
         ps = parse_sym(a)
         if ps:
             return Poly.atom(sym(ps[0], -ps[1]))
@@ -323,6 +340,10 @@ class Evaluator:
             i = self._const(sl)
             return base.items[i]
         if base.kind == "cyc":
+            # v[k]: a row picked at a fixed position of the vertex list - the value depends on where the list starts
+            k0 = self._const(sl)
+            if isinstance(k0, int) and not isinstance(sl, ast.Tuple):
+                return SV("vec", [anchor_poly(shift_poly(c, k0)) for c in base.comps], base.summed, absd=False, items=None)
             # [:, c]  /  [:, np.newaxis]  /  [:, np.newaxis, :]
             if len(elts) == 2 and isinstance(elts[0], ast.Slice):
                 c = self._const(elts[1])
